@@ -131,24 +131,29 @@ Definition serve_account_range (st : state) (root origin limit bytes : N)
 
 (* ---------- ServiceGetStorageRangesQuery, handlers.go:172-291 *)
 
-(* the loop of lines 227-247: (storage, size, abort) *)
-Fixpoint slot_loop (limit hard size : N) (its : list item) : list item * N * bool :=
+(* the loop of lines 227-252: (storage, size, abort).  [legacy = true] is the
+   code before /repo commit 1d1b984ea0 ("prove a storage range that stops at
+   the limit before the end of the trie"): it left abort = false when the
+   iteration stopped at the limit; the current code sets abort when it.Next()
+   shows that more slots follow. *)
+Definition nonempty {A} (l : list A) : bool := match l with [] => false | _ => true end.
+
+Fixpoint slot_loop (legacy : bool) (limit hard size : N) (its : list item)
+  : list item * N * bool :=
   match its with
   | [] => ([], size, false)
   | it :: rest =>
       if hard <=? size then ([], size, true)
       else
         let size' := size + item_size it in
-        if limit <=? fst it then ([it], size', false)
-        else let '(r, s, a) := slot_loop limit hard size' rest in (it :: r, s, a)
+        if limit <=? fst it then ([it], size', if legacy then false else nonempty rest)
+        else let '(r, s, a) := slot_loop legacy limit hard size' rest in (it :: r, s, a)
   end.
-
-Definition nonempty {A} (l : list A) : bool := match l with [] => false | _ => true end.
 
 (* the loop over req.Accounts; [origin_b]/[limit_b] are req.Origin/req.Limit
    (set to nil once consumed); [acc] are the slot lists appended so far.
    Result: (slots, Some (account, keys proven) | None). *)
-Fixpoint storage_loop (st : state) (root : N) (accounts : list N)
+Fixpoint storage_loop (legacy : bool) (st : state) (root : N) (accounts : list N)
     (origin_b limit_b : list N) (bytes hard size : N) (acc : list (list item))
   : list (list item) * option (N * list N) :=
   match accounts with
@@ -161,21 +166,24 @@ Fixpoint storage_loop (st : state) (root : N) (accounts : list N)
         if negb (root =? s_root st) then ([], None)             (* iterator error: nil, nil *)
         else
           let '(storage, size', abort) :=
-            slot_loop limit hard size (seek origin (storage_items st a)) in
+            slot_loop legacy limit hard size (seek origin (storage_items st a)) in
           let acc' := if nonempty storage then acc ++ [storage] else acc in
           if negb (origin =? 0) || (abort && nonempty storage) then     (* line 256 *)
             match find_account (s_accounts st) a with
             | None => ([], None)                                (* acc == nil: nil, nil *)
             | Some _ => (acc', Some (a, proof_keys origin storage))
             end
-          else storage_loop st root rest [] [] bytes hard size' acc'
+          else storage_loop legacy st root rest [] [] bytes hard size' acc'
   end.
 
-Definition serve_storage_ranges (st : state) (root : N) (accounts : list N)
+Definition serve_storage_ranges_gen (legacy : bool) (st : state) (root : N) (accounts : list N)
     (origin_b limit_b : list N) (bytes : N)
   : list (list item) * option (N * list N) :=
   let bytes := cap_bytes bytes in
-  storage_loop st root accounts origin_b limit_b bytes (hard_limit bytes) 0 [].
+  storage_loop legacy st root accounts origin_b limit_b bytes (hard_limit bytes) 0 [].
+
+(* the current code *)
+Definition serve_storage_ranges := serve_storage_ranges_gen false.
 
 (* ---------- ServiceGetByteCodesQuery, handlers.go:347-373 *)
 
